@@ -664,8 +664,18 @@ class Gen:
                     p.append(self.E(tag, {"w:id": "5"}, self.run(allow_nested=False)))
                     self.feat("inline_wrapper")
             elif c < 0.88:
-                p.append(self.E("w:del", {"w:id": "6"}, self.E("w:r", {}, self.E("w:delText", {}, text="gone"))))
-                self.feat("del")
+                # deleted text usually resembles the text around it: the same atoms as the visible stretches, so that
+                # a needle taken from a visible stretch often occurs in the invisible one too (D33); sometimes a
+                # field code instead (w:instrText is not shown either)
+                gone = "gone" if self.p(0.4) else (self.text() or "gone")
+                if self.p(0.75):
+                    p.append(self.E("w:del", {"w:id": "6"}, self.E("w:r", {}, self.E("w:delText", {}, text=gone))))
+                    self.feat("del")
+                else:
+                    p.append(self.E("w:r", {}, self.E("w:fldChar", {"w:fldCharType": "begin"})))
+                    p.append(self.E("w:r", {}, self.E("w:instrText", {"xml:space": "preserve"}, text=" XE \"" + gone + "\" ")))
+                    p.append(self.E("w:r", {}, self.E("w:fldChar", {"w:fldCharType": "end"})))
+                    self.feat("field_code")
             elif c < 0.88 + self.k.math * 0.5:
                 p.append(self.math())
             elif c < 0.95 and self.p(self.k.unknown_elems):
